@@ -93,6 +93,19 @@ def cases(tier, seed):
             R = pat.RND(5, 40, rng, max_len=4)
             for i in range(20):
                 add(cfg, R[2 * i], R[2 * i + 1])
+    # degenerate metrics with SEVERAL null generators: conjugators / operands made of null blades only (each stored blade
+    # squares to 0, yet products of different ones need not vanish), mixed with ordinary ones
+    for cfg in (dict(p=2, r=2), dict(p=1, q=1, r=2), dict(p=1, r=3), dict(r=3), dict(p=1, r=2), dict(p=2, q=1, r=2), dict(p=3, r=1)):
+        dd = sum(cfg.values())
+        p_, q_, r_ = cfg.get('p', 0), cfg.get('q', 0), cfg.get('r', 0)
+        null_bits = [i for i in range(dd) if i >= p_ + q_] if r_ != 1 else [0]      # default layouts: nulls last (first when r == 1)
+        nullblades = [k for k in range(1, 2 ** dd) if any(k >> i & 1 for i in null_bits)]
+        for _ in range(10 if tier == 'quick' else 60):
+            ka = rng.sample(nullblades, min(len(nullblades), rng.choice((2, 2, 3))))
+            kb = list(pat.random_pattern(rng, dd, max_len=3, allow_empty=False))
+            add(cfg, ka, kb)
+            if rng.random() < 0.5:
+                add(cfg, kb, ka)
     # generator names that are hex LETTERS (ea, eb, eab ...): symbol names of code generation then contain letters only
     for cfg in (dict(p=2, start_index=10), dict(p=1, q=1, start_index=11), dict(p=2, r=1, start_index=10), dict(p=3, start_index=12)):
         dd = sum(v for k, v in cfg.items() if k in 'pqr')
